@@ -8,6 +8,7 @@ def step (line : String) : String :=
   | "c16" :: args => Val2idx.run args
   | "c15" :: args => Registry.run args
   | "c12" :: args => TimeDec.run args
+  | "c01" :: args => PFile.runC01 args
   | "c02" :: args => PFile.runC02 args
   | "c03" :: args => PFile.runC03 args
   | "c04" :: args => PFile.runC04 args
